@@ -468,22 +468,90 @@ def sweep_cases():
     return cases
 
 
+def answer_alphabet(version, metric):
+    """A small, deterministic alphabet of representative answers for one question (one per answer
+    class of DESIGN 3): used by the bounded sequence sweep."""
+    sp = spec.SPECS[version]
+    legal = sp.values[metric]
+    multi = [v for v in legal if len(v) > 1]
+    other = None
+    for m in sp.order:
+        for v in sp.values[m]:
+            if spec.classify(version, metric, v)[0] == "refuse":
+                other = v
+                break
+        if other:
+            break
+    alpha = [
+        ("legal-first", legal[0]),
+        ("legal-last-lower", legal[-1].lower()),
+        ("empty", ""),
+        ("garbage", "zz9"),
+        ("prefix-or-plus", multi[0][:-1] if multi and spec.classify(version, metric, multi[0][:-1])[0] == "refuse" else legal[0] + legal[0]),
+        ("other-metric-value", other or "Q"),
+        ("padded-legal", " " + legal[-1] + " "),
+        ("wrong-not-defined", "X" if version == "2" else "ND"),
+    ]
+    return alpha
+
+
+def seq_cases(max_len):
+    """Bounded sequence sweep: every answer sequence of length 1..max_len over the 8-class alphabet,
+    at every metric of every version (the sequence is served while the question is repeated)."""
+    import itertools
+
+    cases = []
+    for version in spec.VERSIONS:
+        sp = spec.SPECS[version]
+        for metric in sp.order:
+            for n in range(1, max_len + 1):
+                for combo in itertools.product(range(8), repeat=n):
+                    cases.append((version, metric, combo))
+    return cases
+
+
+class SequenceAgent(object):
+    """Serves a fixed answer sequence at one metric (as long as that question is repeated), the first
+    legal value everywhere else and once the sequence is used up."""
+
+    def __init__(self, version, labels, metric, answers):
+        self.sp = spec.SPECS[version]
+        self.labels = labels
+        self.metric = metric
+        self.answers = list(answers)
+        self.tries = {}
+
+    def answer(self, index, prompt):
+        label, offered = runner23.parse_prompt(prompt)
+        m = self.labels.get(label)
+        n = self.tries.get(label, 0)
+        self.tries[label] = n + 1
+        if m is None or m not in self.sp.values or n >= len(self.answers) + 3:
+            return "e", ""
+        if m == self.metric and n < len(self.answers):
+            return "l", self.answers[n]
+        k = n - (len(self.answers) if m == self.metric else 0)
+        return "l", self.sp.values[m][k % len(self.sp.values[m])]
+
+
 class BuilderEngine(object):
     prop = PROP
 
-    def __init__(self, seed=0, mode="random"):
+    def __init__(self, seed=0, mode="random", max_len=2):
         self.seed = seed
         self.mode = mode
         self.labels = dict((v, spec.label_map(v)) for v in spec.VERSIONS)
         import cvss
 
         self.ctors = {"CVSS2": cvss.CVSS2, "CVSS3": cvss.CVSS3, "CVSS4": cvss.CVSS4}
-        self.cases = sweep_cases() if mode == "sweep" else None
+        self.cases = sweep_cases() if mode == "sweep" else (seq_cases(max_len) if mode == "seqsweep" else None)
 
     # -- one seeded run -----------------------------------------------------------------
     def run_one(self, index):
         if self.mode == "sweep":
             return self.run_sweep(index)
+        if self.mode == "seqsweep":
+            return self.run_seq(index)
         run_seed = mix(self.seed, PROP, index)
         rng = Rng(run_seed)
         sw = draw_swarm(rng.fork("swarm"))
@@ -517,6 +585,21 @@ class BuilderEngine(object):
         if not any(r["metric"] == metric for r in reads) and not out["violations"]:
             out["violations"].append(violation(PROP, "e", "target-never-asked:%s:%s" % (version, metric),
                                                "v%s: directed session never reached the question for %s" % (version, metric)))
+        return out
+
+    def run_seq(self, index):
+        version, metric, combo = self.cases[index]
+        sp = spec.SPECS[version]
+        alpha = answer_alphabet(version, metric)
+        answers = [alpha[i][1] for i in combo]
+        all_metrics = metric not in sp.mandatory
+        agent = SequenceAgent(version, self.labels[version], metric, answers)
+        rec = runner23.ScriptAgent([], fallback=agent)
+        res = runner23.run_builder(version, all_metrics, True, rec, MAX_READS)
+        item = {"k": "builder", "version": version, "all": all_metrics, "nocolor": True, "script": rec.served, "cap": MAX_READS}
+        trace = {"engine": "builder", "seq_case": [version, metric, [alpha[i][0] for i in combo]], "item": item}
+        out = self.assess(trace, res)
+        out["counters"]["seqsweep.sessions"] = 1
         return out
 
     # -- replay / shrink ------------------------------------------------------------------
@@ -587,5 +670,5 @@ class BuilderEngine(object):
             yield [kind, text.strip()]
 
 
-def make_engine(seed=0, mode="random"):
-    return BuilderEngine(seed, mode)
+def make_engine(seed=0, mode="random", max_len=2):
+    return BuilderEngine(seed, mode, max_len)
